@@ -1,0 +1,17 @@
+//go:build verif
+// +build verif
+
+package dosnode
+
+import (
+	"context"
+	"math/big"
+
+	"github.com/DOSNetwork/core/onchain"
+)
+
+// VerifRegisterGroup is registerGroup (the stage that hands a finished key generation's
+// [group id, four key coordinates] to the chain adaptor). Verification hook, no logic.
+func VerifRegisterGroup(ctx context.Context, chain onchain.ProxyAdapter, idWithPubKeys chan [5]*big.Int) chan error {
+	return registerGroup(ctx, chain, idWithPubKeys)
+}
